@@ -614,6 +614,7 @@ type Config struct {
 	Deadline      time.Time
 	Tally         bool
 	CrossCheck    int
+	MaxViol       int
 	RetryMs       int
 }
 
@@ -637,6 +638,7 @@ type Explorer struct {
 	funcs   map[string]int64
 	pickN   map[string]int
 	decKinds map[string]int
+	nViol    int
 	cross    map[string]int
 }
 
@@ -731,6 +733,13 @@ func (e *Explorer) worker(w int) {
 		res := e.runPath(solver, prefix, item.model, id)
 		e.mu.Lock()
 		e.results = append(e.results, res)
+		if res.Status == "violation" || res.Status == "panic" {
+			e.nViol++
+			if e.cfg.MaxViol > 0 && e.nViol >= e.cfg.MaxViol {
+				// enough counterexamples: stop exploring (the run is reported as incomplete)
+				e.stopped = true
+			}
+		}
 		for k, v := range res.Funcs {
 			e.funcs[k] += v
 		}
